@@ -10,7 +10,9 @@ use vh_core::curve::*;
 use vh_core::engine::{no_panic, Obs, Tape, R};
 use vh_core::{ensure, fail};
 
-pub const HINTS: [usize; 7] = [0, 31, 64, 256, 300, 2048, 5000];
+/// table-size hints; the last two give windows 11 and 13 (wider than every toy scalar and than anything a batch of
+/// a few thousand scalars asks for)
+pub const HINTS: [usize; 9] = [0, 31, 64, 256, 300, 2048, 5000, 70000, 1 << 20];
 
 fn nt_small(k: u64, r: u64) -> bool {
     k > 1 && (k >= r || (64 - k.leading_zeros()) >= (64 - r.leading_zeros()) || (k & (k >> 1)) != 0)
@@ -79,6 +81,16 @@ where
         let e: [u64; 0] = [];
         sw_expect(&no_panic("mul_bigint.empty", || proj.mul_bigint(e))?, &want, "mul_bigint.empty", &cx)?;
     }
+    if (aux >> 40) & 3 == 0 {
+        // an integer wider than the (one-limb) scalar field, then zero limbs on top
+        let hi = 1 + (aux >> 44) % 5;
+        let pad = (aux >> 48) as usize % 4;
+        let wide: Vec<u64> = [k, hi].into_iter().chain(std::iter::repeat(0).take(pad)).collect();
+        let want_w = sw_mul(&a, &pt, &(BigUint::from(k) + (BigUint::from(hi) << 64)));
+        o.class(if pad > 0 { "limbs=wider-than-N-then-zero-padded" } else { "limbs=wider-than-N" });
+        sw_expect(&no_panic("mul_bigint.projective.wide", || proj.mul_bigint(&wide))?, &want_w, "mul_bigint.projective.wide", &cx)?;
+        sw_expect(&no_panic("mul_bigint.affine.wide", || aff.mul_bigint(&wide))?, &want_w, "mul_bigint.affine.wide", &cx)?;
+    }
     // bit stream with leading false bits
     let nb = 64 - k.leading_zeros() as usize;
     let lead = (aux >> 8) as usize % 5;
@@ -91,9 +103,14 @@ where
     no_panic("mul_assign", || q *= s)?;
     sw_expect(&q, &want_r, "mul_assign", &cx)?;
     sw_expect(&no_panic("mul.affine", || aff * s)?, &want_r, "mul.affine", &cx)?;
+    sw_expect(&no_panic("mul.affine.ref", || aff * &s)?, &want_r, "mul.affine.ref", &cx)?;
+    sw_expect(&no_panic("mul.projective.ref", || proj * &s)?, &want_r, "mul.projective.ref", &cx)?;
+    let mut q = proj;
+    no_panic("mul_assign.ref", || q *= &s)?;
+    sw_expect(&q, &want_r, "mul_assign.ref", &cx)?;
     // windowed NAF
     let windows: Vec<usize> = if c.all_windows { (2..=c.wmax).collect() } else { vec![2 + (aux >> 16) as usize % (c.wmax - 1)] };
-    o.evals(9 + 3 * windows.len() as u64);
+    o.evals(12 + 3 * windows.len() as u64);
     for w in windows {
         let ctx = WnafContext::new(w);
         let sig = |s: &str| format!("wnaf.{}", s);
@@ -113,6 +130,53 @@ where
             }
         }
     }
+    Ok(())
+}
+
+/// Wide windows (9..=16: wider than every toy scalar, tables of up to 2^15 entries) and windows too wide for the
+/// table at hand (up to 63). tape: [point index, k in 0..r, window, narrower window, huge window, aux]
+pub fn sw_wnaf_wide<P: SWCurveConfig>(c: &ToySw<P>, t: &mut Tape<'_>, o: &mut Obs) -> R
+where
+    P::BaseField: PrimeField,
+{
+    let i = t.idx(c.pts.len());
+    let k = t.below(c.r);
+    let w = t.range(9, 16) as usize;
+    let w2 = t.range(2, w as u64 - 1) as usize;
+    let huge = t.range(w as u64 + 1, 63) as usize;
+    let aux = t.u64();
+    let pt = c.pts[i];
+    let want = sw_mul(&P::COEFF_A, &pt, &BigUint::from(k));
+    let lam = P::BaseField::from(1 + aux % (c.p - 1));
+    let proj = sw_to_proj::<P>(&pt, &lam, &lam, &P::BaseField::one());
+    let s = P::ScalarField::from(k);
+    o.show(|| format!("{}: wide wNAF w={} (narrower {}, huge {}) P={:?} k={} lambda={}", c.name, w, w2, huge, pt, k, lam));
+    o.nt(pt != Sw::Inf && nt_small(k, c.r));
+    o.class_if(w >= 13, "w>=13");
+    o.class_if(huge >= 33, "window>=33 with a short table => None");
+    o.evals(4);
+    let cx = || format!("{} w={} P={:?} k={}", c.name, w, pt, k);
+    let ctx = WnafContext::new(w);
+    sw_expect(&no_panic("wnaf.mul", || ctx.mul(proj, &s))?, &want, "wnaf.mul", &cx)?;
+    let table = no_panic("wnaf.table", || ctx.table(proj))?;
+    ensure!(table.len() == 1 << (w - 1), "wnaf.table.len", "table of {} entries for w={}", table.len(), w);
+    // entry j is (2j+1) P: spot-check the first, the last and one in between with the oracle
+    for j in [0usize, table.len() - 1, (aux >> 20) as usize % table.len()] {
+        let e = sw_mul(&P::COEFF_A, &pt, &BigUint::from(2 * j as u64 + 1));
+        sw_expect(&table[j], &e, "wnaf.table.entry", &|| format!("entry {} {}", j, cx()))?;
+    }
+    match no_panic("wnaf.mul_with_table", || ctx.mul_with_table(&table, &s))? {
+        Some(g) => sw_expect(&g, &want, "wnaf.mul_with_table", &cx)?,
+        None => return fail("wnaf.mul_with_table.none", format!("None with a full table {}", cx())),
+    }
+    match no_panic("wnaf.longer_table", || WnafContext::new(w2).mul_with_table(&table, &s))? {
+        Some(g) => sw_expect(&g, &want, "wnaf.longer_table", &|| format!("table for w={} used at w={} {}", w, w2, cx()))?,
+        None => return fail("wnaf.longer_table.none", format!("None with a table for w={} used at w={}", w, w2)),
+    }
+    let r = no_panic("wnaf.huge_window", || WnafContext::new(huge).mul_with_table(&table, &s))?;
+    ensure!(r.is_none(), "wnaf.huge_window.some", "Some(..) for window {} with a table of {} entries {}", huge, table.len(), cx());
+    let r = no_panic("wnaf.short_table", || ctx.mul_with_table(&table[..table.len() - 1], &s))?;
+    ensure!(r.is_none(), "wnaf.short_table.some", "Some(..) with one table entry missing {}", cx());
     Ok(())
 }
 
@@ -254,13 +318,18 @@ where
         no_panic("mul_assign", || q *= s)?;
         te_expect(&q, want_r, "mul_assign", &cx)?;
         te_expect(&no_panic("mul.affine", || aff * s)?, want_r, "mul.affine", &cx)?;
+        te_expect(&no_panic("mul.affine.ref", || aff * &s)?, want_r, "mul.affine.ref", &cx)?;
+        te_expect(&no_panic("mul.projective.ref", || proj * &s)?, want_r, "mul.projective.ref", &cx)?;
+        let mut q = proj;
+        no_panic("mul_assign.ref", || q *= &s)?;
+        te_expect(&q, want_r, "mul_assign.ref", &cx)?;
     }
     if !(c.complete || c.sub[i]) {
         return Ok(());
     }
     let want_r = want_r.unwrap();
     let windows: Vec<usize> = if c.all_windows { (2..=c.wmax).collect() } else { vec![2 + (aux >> 16) as usize % (c.wmax - 1)] };
-    o.evals(9 + 3 * windows.len() as u64);
+    o.evals(12 + 3 * windows.len() as u64);
     for w in windows {
         let ctx = WnafContext::new(w);
         te_expect(&no_panic("wnaf.mul", || ctx.mul(proj, &s))?, &want_r, "wnaf.mul", &|| format!("w={} {}", w, cx()))?;
